@@ -18,7 +18,7 @@ from vkit.core import Sub, Violation, given_run
 from vkit.gen import g1, g2, g3
 from vkit.gen.choice import from_bytes
 from vkit.harness.resolvers import AsyncPlan, make_async_resolvers, make_field_resolver
-from vkit.harness.sched import Hang, Sched
+from vkit.harness.sched import Hang, Sched, StepLimit
 from vkit.ref import execute as R5
 
 ID = "C03"
@@ -110,6 +110,8 @@ def eval_request(env, op_name, vardefs, variables, oseed, density, plan_spec, sc
         except Hang as h:
             bad("hang", f"{h}; query {env.text!r} vars {variables!r} plan {plan_spec} schedule {schedule}")
             continue
+        except StepLimit:
+            continue  # inconclusive
         except Exception as e:  # noqa: BLE001
             bad("execute-raises", f"{type(e).__name__}: {e}; query {env.text!r} plan {plan_spec} "
                 f"schedule {schedule}")
